@@ -268,10 +268,10 @@ func CanonState(s vaxis.VerifC03State) string {
 	for _, b := range s.Caps {
 		caps.WriteString(bit(b))
 	}
-	return fmt.Sprintf("caps=%s p=%s q=%s z=%s ns=%d,%d,%d,%d ucs=%d ch=%d%d%d%d",
+	return fmt.Sprintf("caps=%s p=%s q=%s z=%s ns=%d,%d,%d,%d ucs=%d ch=%d%d%d%d%d",
 		caps.String(), bit(s.PastePending), bit(s.ReqCursorPos), bit(s.ResizeFlag),
 		s.NextSize.Cols, s.NextSize.Rows, s.NextSize.XPixel, s.NextSize.YPixel, s.UserCursorStyle,
-		s.ChanLen[1], s.ChanLen[2], s.ChanLen[3], s.ChanLen[4])
+		s.ChanLen[0], s.ChanLen[1], s.ChanLen[2], s.ChanLen[3], s.ChanLen[4])
 }
 
 // ---------- fixture: a real Vaxis on a fake console ----------
@@ -431,6 +431,16 @@ func (f *Fixture) TakeStubSettled() []string {
 	was := f.stubOn
 	if was {
 		f.StubOff()
+		// chCursorPos is buffered since the F12 repair: the answer may still be in the channel
+		// when the stub is stopped; the always-waiting requester it plays would have taken it
+		cp, _, _, _, _, _ := f.Vx.VerifC03Chans()
+		select {
+		case p := <-cp:
+			f.stubMu.Lock()
+			f.stubGot = append(f.stubGot, fmt.Sprintf("cp:%d:%d", p[0], p[1]))
+			f.stubMu.Unlock()
+		default:
+		}
 	}
 	out := f.TakeStub()
 	if was {
@@ -481,9 +491,17 @@ func (f *Fixture) tryTake(i int) (string, bool) {
 	return "", false
 }
 
-// Drain empties the four capacity-1 reply channels and reports what they held.
+// Drain empties the capacity-1 reply channels and reports what they held.
 func (f *Fixture) Drain() []string {
 	var out []string
+	if !f.stubOn {
+		cp, _, _, _, _, _ := f.Vx.VerifC03Chans()
+		select {
+		case p := <-cp:
+			out = append(out, fmt.Sprintf("cp:%d:%d", p[0], p[1]))
+		default:
+		}
+	}
 	for i := 0; i < 4; i++ {
 		if v, ok := f.tryTake(i); ok {
 			out = append(out, v)
